@@ -37,7 +37,8 @@ def vectorize_otypes(f):
         raise common.HarnessError("cannot find the numpy.vectorize object in wrapper_vectorize_func")
     if vf.otypes is None:
         return None
-    return {"d": float, "l": int, "q": int, "?": bool}.get(vf.otypes[0], vf.otypes[0])
+    from gsv.colsym import otype_to_py
+    return otype_to_py(vf.otypes[0])
 
 
 def date_classes(tier):
@@ -250,9 +251,37 @@ def _same(a, b):
     return abs(float(a) - float(b)) <= 1e-9 * max(1.0, abs(float(b)))
 
 
+def direct_vectorized(f, P, rows):
+    """the real vectorized wrapper called on numpy columns typed by the rule's own annotations"""
+    from _gettsim.functions_loader import _vectorize_func
+    w = _vectorize_func(f)
+    kw = {a: P[a[:-7]] for a in inspect.signature(f).parameters if a.endswith("_params")}
+    dts = set()
+    changed = False
+    scalar = [gt.py(f(**kw, **r)) for r in rows]
+    for order in (list(range(len(rows))), list(reversed(range(len(rows))))):
+        cols = {a: numpy.array([rows[i][a] for i in order]) for a in rows[0]}
+        out = numpy.asarray(w(**kw, **cols))
+        dts.add(str(out.dtype))
+        for pos, i in enumerate(order):
+            if not _same(gt.py(out[pos]), scalar[i]):
+                changed = True
+    return {"value_changed": changed, "dtype_depends_on_data": len(dts) > 1}
+
+
 def replay_model(ck, label, name, f, P, date, syms, m, single=False):
     rows = rows_from_model(m, syms, ("@1",) if single else ("@1", "@2"))
     res = replay_rows(date, name, f.__name__, rows)
+    api_ok = res["value_changed"] or (label == "dtype-varies" and res["dtype_depends_on_data"])
+    if not api_ok:
+        dv = direct_vectorized(f, P, rows)
+        if dv["value_changed"] or (label == "dtype-varies" and dv["dtype_depends_on_data"]):
+            # true of the vectorized rule, but the public API coerces a supplied argument column to another
+            # type than the rule's own annotation says (e.g. an aggregate annotated int that is float):
+            # frontier-dependent candidate, neither a violation nor an encoder error
+            ck.inconclusive.append(f"{label} {f.__name__}@{date}: reproduces on the vectorized rule, not through the API (argument types coerced)")
+            ck.extra.setdefault("frontier_dependent_candidates", []).append(f"{label} {f.__name__}")
+            return
     key = [label.split(":")[0] if label.startswith(("truncation", "coercion")) else label, f.__name__]
     if label == "dtype-varies":
         if res["dtype_depends_on_data"] or res["value_changed"]:
